@@ -258,6 +258,8 @@ func runC08(c *core.Ctx) {
 		sites := whoMayCall(c, "C08-R1b", "discovery.NodeProvider.Node", t, names, map[string]string{})
 		c.Decide(len(sites) == 0, "C08-R1b", "discovery.NodeProvider.Node|no caller", "", "no call site in the node", "discovery.NodeProvider.Node now has callers: a peer's identity key reaches the unchecked key-type assertion in ECDSAPubFromInterface")
 	}
+	// the lock table is a plain Go map: a concurrent access is a fatal runtime error no recover() catches
+	checkValidationLocks(c, "C08-R3")
 	c.Count("functions_scanned_for_crash_sites", len(funcs))
 	sites := enumerateCrashSites(c, funcs)
 	c.Count("crash_sites", len(sites))
